@@ -148,11 +148,18 @@ class ShortReader(io.RawIOBase):
         return out
 
 
+PARSERS = {}
+
+
 def parse_high(FP, body, boundary, buffer_size=None, short=None):
     try:
         stream = ShortReader(body, short) if short else io.BytesIO(body)
         kw = {} if buffer_size is None else {"buffer_size": buffer_size}
-        form, files = FP.MultiPartParser(**kw).parse(stream, boundary, len(body))
+        parser = PARSERS.get(buffer_size)
+        if parser is None:
+            # history: one parser object per buffer size serves every body of the run (a parse leaves nothing behind)
+            parser = PARSERS[buffer_size] = FP.MultiPartParser(**kw)
+        form, files = parser.parse(stream, boundary, len(body))
         res = []
         for k, v in form.items(multi=True):
             res.append(["field", k, None, v.encode("utf-8", "surrogateescape")])
